@@ -510,7 +510,9 @@ fn main() {
                 continue;
             }
             let name = entry_name(&list, i);
-            let fam = if name.starts_with("lib:") { name.clone() } else { "e1-program".to_string() };
+            // library circuits: the family is the name up to an optional '|' (instances of one
+            // construction over several fields share a family)
+            let fam = if name.starts_with("lib:") { name.split('|').next().unwrap().to_string() } else { "e1-program".to_string() };
             if comps.len() != o.len() {
                 report.violation(format!("nondeterministic:shape:{fam}"), format!("{name}: different component list under {mode}"), json!({"program": name, "mode_b": mode}));
                 continue;
